@@ -114,6 +114,8 @@ def setup(sess, inline=()):
             raise Unsupported("deque(iterable)")
         return seq_lit("list", [], new_aid())
     eng.lib["collections.deque"] = deque_ctor
+    import queue as _queue
+    eng.iface_real["IQueue"] = _queue.Queue()      # an instance: not_empty, mutex, queue ... are instance attributes
     nt = collections.namedtuple("_Detection", "id start end duration")
     eng.lib["collections.namedtuple"] = lambda e, a, k: LibCallable("_Detection", lambda e2, a2, k2: nt(*a2, **k2))
     return eng
